@@ -7,6 +7,13 @@ ROOT = os.path.dirname(os.path.dirname(os.path.abspath(__file__)))
 
 # id: (category, technique, text, note, design_ref)
 CHECKS = {
+ "C01": ("exploration",
+         "property-based testing (Hypothesis histories + enumerated suite x version x EtM triples), FIFO model + reference receiver oracle",
+         "Two real TLSConnection endpoints complete a pinned handshake for every negotiable (suite, version, EtM) triple; a generated history of writes, reads and "
+         "record-size changes is compared with a FIFO model, and every record on the wire is re-opened by an independent reference receiver (vlib/refs) that also "
+         "checks the per-record plaintext length against the limit in force (user recordSize, RFC 8449 negotiated limit, TLS 1.3 padding).",
+         "in-memory transport; reference ciphers/KDFs validated against OpenSSL CLI and RFC vectors; two dead suites (0x40, 0x6A) cannot be negotiated at all and are outside the domain",
+         "DESIGN.md §4 C01"),
  "C12": ("exploration",
          "property-based testing (Hypothesis + enumerated grids) against a direct executable specification",
          "ct_check_cbc_mac_and_pad is compared with a direct RFC specification of MtE CBC bodies on enumerated grids "
